@@ -65,10 +65,17 @@ def properties_of(v, job):
         out.add("C13")
     if rule == "cursor-moved-backward":
         out.add("C20")
+    if rule in ("window-rescanned", "region-rescanned"):
+        out.add("C20")
+    if rule == "no-progress-cycle":
+        out.add("C20")
+        out.add("C01")
     if rule.startswith("scanner-"):
         out.add("C12")
     if rule.startswith("hygiene:"):
         out.add("C05")
+    if rule.startswith("zero-copy:"):
+        out.add("C04")
     if rule.startswith("history:") or rule.startswith("use-of-hist"):
         out.add("C18")
     if rule.startswith("headers:"):
@@ -76,6 +83,7 @@ def properties_of(v, job):
     if rule == "partial-with-unread-input":
         out.add("C11")
     if rule.startswith("spec:"):
+        out.add("C02")  # filtered by the C02 check: only deviations that depend on where the buffer ends
         _, cls, phase = rule.split(":", 2)
         if phase == "chunk":
             gram = "C09"
